@@ -935,7 +935,15 @@ def build(include=None, stubset=(), spec_paths=None, shim_paths=None, out_path=N
     out.add("pub broadcast group group_rp { %s }\npub broadcast group group_rp_json { %s }\n}\n}\n" % (", ".join(names), ", ".join(jnames)))
     out.add("pub mod rp_spec {\nuse vstd::prelude::*;\nuse crate::serde::Serialize as _; use crate::serde::JsonSpec as _;\nuse crate::erased_serde::Serialize as _;\nuse crate::shim_prelude::*;\nuse crate::rp_axioms::*;\nuse crate::rp_core::*;\nuse crate::rp_core::common::*;\n" + extra_use + "verus!{\n")
     for t in specs.specdefs:
-        out.add(t + "\n", {"file": "contracts", "part": "specs"})
+        # `// OBL: <label>` proof fns inside @specs are named obligations too (theorems over the contract-level spec functions)
+        for pc in re.split(r"(?m)^(?=// OBL: )", t + "\n"):
+            m = re.match(r"// OBL: (\S+)", pc)
+            if m:
+                fm = re.search(r"proof fn (\w+)", pc)
+                ctx_theorems.append({"label": m.group(1), "fn": fm.group(1) if fm else "?", "file": "contracts", "text": " ".join(pc.split())[:500]})
+                out.add(pc, {"file": "specs:contracts", "part": "theorem", "label": m.group(1)})
+            else:
+                out.add(pc, {"file": "contracts", "part": "specs"})
     out.add("}\n}\n")
     # canary (DESIGN 1.7): with every assumed axiom in scope, `false` must NOT be provable
     out.add("pub mod rp_canary {\nuse vstd::prelude::*;\nuse crate::shim_prelude::*;\nverus!{\n" + BROADCAST_USE +
